@@ -7,7 +7,13 @@
 //!  * mode `rank` (seeded float grid + random bit patterns): the finite code is the dense rank of
 //!    the float among all finite floats of the run (numeric order, -0.0 == +0.0), resolved when
 //!    the run is complete.  Arithmetic is additionally logged by class
-//!    (`nan | neginf | neg | zero | pos | posinf`).
+//!    (`nan | neginf | neg | zero | pos | posinf`);
+//!  * mode `sci` (operands of extreme magnitude): the finite code is the position of the float on
+//!    the lattice of floats with at most 9 significant bits over the whole exponent range of f64,
+//!    `2^e (1 + f / 256)  ->  (e + 1074) * 256 + f + 1` (negated for negative values, 0 for both
+//!    zeros): an exact, order-preserving integer name of the float from which the spec recovers
+//!    exponent and significand and computes every sum, product and quotient itself.  A finite
+//!    result with more significant bits has no code and is logged as reply `off` with its sign.
 use std::cmp::Ordering;
 
 use mahf::{problems::objective::IllegalObjective, MultiObjective, SingleObjective};
@@ -66,9 +72,73 @@ fn exact_code(x: f64) -> i64 {
     special_code(x).unwrap_or_else(|| if x.fract() == 0.0 && x.abs() < 900_000.0 { x as i64 } else { NONINT })
 }
 
+/// Fraction bits of the lattice of mode `sci`.
+const LAT_P: u32 = 8;
+
+/// Lattice code of a finite float (`None`: more than `LAT_P + 1` significant bits).
+fn lat_code(x: f64) -> Option<i64> {
+    if x == 0.0 {
+        return Some(0);
+    }
+    let bits = x.abs().to_bits();
+    let (expf, mant) = ((bits >> 52) as i64, bits & ((1u64 << 52) - 1));
+    // x = sig * 2^k
+    let (mut sig, mut k) = if expf == 0 { (mant, -1074i64) } else { (mant | (1u64 << 52), expf - 1075) };
+    let tz = sig.trailing_zeros();
+    sig >>= tz;
+    k += tz as i64;
+    let bl = 64 - sig.leading_zeros();
+    if bl > LAT_P + 1 {
+        return None;
+    }
+    let e = k + bl as i64 - 1;
+    let f = ((sig << (LAT_P + 1 - bl)) - (1u64 << LAT_P)) as i64;
+    let c = (e + 1074) * (1i64 << LAT_P) + f + 1;
+    Some(if x < 0.0 { -c } else { c })
+}
+
+/// The float a lattice code stands for (built from its bits, no arithmetic involved).
+fn lat_float(c: i64) -> f64 {
+    if c == 0 {
+        return 0.0;
+    }
+    let m = c.abs() - 1;
+    let (e, f) = (m / (1i64 << LAT_P) - 1074, (m % (1i64 << LAT_P)) as u64);
+    let bits = if e >= -1022 {
+        (((e + 1023) as u64) << 52) | (f << (52 - LAT_P))
+    } else {
+        // subnormal: (256 + f) * 2^(e - 8) = n * 2^-1074
+        let sig = (1u64 << LAT_P) + f;
+        let sh = e - LAT_P as i64 + 1074;
+        if sh >= 0 {
+            sig << sh
+        } else {
+            assert!(sig.trailing_zeros() as i64 >= -sh, "lattice code {c} is not a float");
+            sig >> (-sh)
+        }
+    };
+    let x = f64::from_bits(bits);
+    if c < 0 {
+        -x
+    } else {
+        x
+    }
+}
+
+fn sci_code(x: f64) -> i64 {
+    special_code(x).unwrap_or_else(|| lat_code(x).unwrap_or(NONINT))
+}
+
+#[derive(Clone, Copy, PartialEq)]
+enum Mode {
+    Exact,
+    Rank,
+    Sci,
+}
+
 /// One run: the pool of objective values obtained so far and the buffered events.
 struct Run {
-    rank_mode: bool,
+    mode: Mode,
     pool: Vec<SingleObjective>,
     /// every legal value obtained so far (the spec's `vals`; the operand pool is a subset)
     owned: Vec<f64>,
@@ -78,9 +148,13 @@ struct Run {
 }
 
 impl Run {
-    fn new(run: u64, rank_mode: bool) -> Self {
-        let mut r = Self { rank_mode, pool: Vec::new(), owned: Vec::new(), floats: Vec::new(), events: Vec::new(), run };
-        let mode = if rank_mode { "rank" } else { "exact" };
+    fn new(run: u64, mode: Mode) -> Self {
+        let mut r = Self { mode, pool: Vec::new(), owned: Vec::new(), floats: Vec::new(), events: Vec::new(), run };
+        let mode = match mode {
+            Mode::Exact => "exact",
+            Mode::Rank => "rank",
+            Mode::Sci => "sci",
+        };
         r.events.push(json!({"run": run, "i": -1, "act": act("reset", mode, json!(NOVAL), json!(NOVAL), NOC, NOC, json!([]), json!([])),
                              "res": res("ok", json!(NOVAL), NOC, json!([])), "vals": []}));
         r
@@ -88,17 +162,39 @@ impl Run {
 
     /// abstract code of a float (placeholder in rank mode)
     fn enc(&mut self, x: f64) -> Value {
-        if self.rank_mode {
-            match special_code(x) {
+        match self.mode {
+            Mode::Rank => match special_code(x) {
                 Some(c) => json!(c),
                 None => {
                     self.floats.push(x);
                     json!({ "$f": x.to_bits().to_string() })
                 }
-            }
-        } else {
-            json!(exact_code(x))
+            },
+            Mode::Exact => json!(exact_code(x)),
+            Mode::Sci => json!(sci_code(x)),
         }
+    }
+
+    /// abstract code of a float, fixed (modes `exact` and `sci`)
+    fn code(&self, x: f64) -> i64 {
+        if self.mode == Mode::Sci {
+            sci_code(x)
+        } else {
+            exact_code(x)
+        }
+    }
+
+    /// the float an input code of a TLC scenario stands for
+    fn float_of(&self, code: i64) -> f64 {
+        match (self.mode, code) {
+            (Mode::Sci, c) if c.abs() < POSINF => lat_float(c),
+            (_, c) => f64_of(c),
+        }
+    }
+
+    /// a finite result the carrier of mode `sci` has no code for
+    fn off_lattice(&self, x: f64) -> bool {
+        self.mode == Mode::Sci && x.is_finite() && lat_code(x).is_none()
     }
 
     fn enc_list(&mut self, xs: &[f64]) -> Value {
@@ -109,7 +205,7 @@ impl Run {
         // only values the abstract object owns are used as operands later; the record of the
         // call that produced an illegal value is emitted all the same and judged by TLC
         let v = o.value();
-        if !v.is_nan() && v != f64::NEG_INFINITY {
+        if !v.is_nan() && v != f64::NEG_INFINITY && !self.off_lattice(v) {
             self.pool.push(o);
             if !self.owned.iter().any(|w| *w == v) {
                 self.owned.push(v);
@@ -159,7 +255,7 @@ impl Run {
     }
 
     fn find(&self, code: i64) -> Option<SingleObjective> {
-        self.pool.iter().rev().find(|o| exact_code(o.value()) == code).copied()
+        self.pool.iter().rev().find(|o| self.code(o.value()) == code).copied()
     }
 }
 
@@ -223,6 +319,7 @@ fn do_arith(r: &mut Run, op: &str, x: SingleObjective, y: Option<SingleObjective
         other => panic!("unknown arithmetic op {other}"),
     });
     let reply = match out {
+        Ok(o) if r.off_lattice(o.value()) => res("off", json!(NOVAL), class_of(o.value()), json!([])),
         Ok(o) => {
             r.keep(o);
             res("val", r.enc(o.value()), class_of(o.value()), json!([]))
@@ -412,7 +509,7 @@ fn replay_act(r: &mut Run, a: &Value) {
     let cb = a["b"].as_i64().unwrap();
     let missing = |r: &mut Run| r.emit(a.clone(), res("no_operand", json!(NOVAL), NOC, json!([])));
     match op {
-        "try_from" => do_try_from(r, f64_of(ca)),
+        "try_from" => do_try_from(r, r.float_of(ca)),
         "infinity" | "default" => do_const(r, op),
         "neg" => match r.find(ca) {
             Some(x) => do_arith(r, op, x, None, 0.0),
@@ -423,7 +520,7 @@ fn replay_act(r: &mut Run, a: &Value) {
             _ => missing(r),
         },
         "mul" | "div" => match r.find(ca) {
-            Some(x) => do_arith(r, op, x, None, f64_of(cb)),
+            Some(x) => do_arith(r, op, x, None, r.float_of(cb)),
             None => missing(r),
         },
         "cmp" => match (r.find(ca), r.find(cb)) {
@@ -821,12 +918,174 @@ fn neighbour_run(r: &mut Run, rng: &mut ChaCha8Rng, m: f64, negative_vectors: bo
     }
 }
 
+// ------------------------------------------------------------------------------------------------
+// operands of extreme magnitude (mode sci): lattice floats over the whole exponent range
+
+/// The lattice float `2^e (1 + f / 256)`.
+fn lat(e: i64, f: i64) -> f64 {
+    lat_float((e + 1074) * (1i64 << LAT_P) + f + 1)
+}
+
+/// Magnitudes of the systematic sweep: the smallest subnormals, subnormals up to the border,
+/// MIN_POSITIVE and its neighbourhood, square roots of the smallest / largest magnitudes (products
+/// and quotients of two of them land on the borders), ordinary values, the largest binades.
+fn sci_magnitudes() -> Vec<f64> {
+    vec![
+        lat(-1074, 0), // smallest positive subnormal
+        lat(-1073, 128), // 3 * 2^-1074
+        lat(-1072, 64),  // 5 * 2^-1074
+        lat(-1030, 0),
+        lat(-1023, 0),
+        lat(-1023, 255), // subnormal with 9 significant bits
+        lat(-1022, 0),   // f64::MIN_POSITIVE
+        lat(-1022, 128),
+        lat(-1021, 0),
+        lat(-538, 0),
+        lat(-537, 0),
+        lat(-537, 128),
+        lat(-511, 0),
+        lat(-1, 0),
+        lat(0, 0),
+        lat(0, 1),
+        lat(0, 128),
+        lat(1, 0),
+        lat(1, 128), // 3
+        lat(52, 0),
+        lat(511, 0),
+        lat(512, 0),
+        lat(512, 128),
+        lat(537, 0),
+        lat(1021, 0),
+        lat(1022, 0),
+        lat(1022, 128), // 3 * 2^1021
+        lat(1023, 0),
+        lat(1023, 128),
+        lat(1023, 255), // largest lattice value, 0.2 % below f64::MAX
+    ]
+}
+
+/// Run per left operand x: every objective of the grid is constructed, then -x, x + y, x - y for
+/// every objective y and x * s, x / s for every scalar s (both signs, +0.0, NaN, both infinities).
+/// Scalars do not include -0.0: the carrier has one zero, and the sign of x / -0.0 hangs on it
+/// (the class-level sweep of mode `rank` covers that divisor).
+fn sci_systematic(out: &mut Out, first_run: u64) -> u64 {
+    let mags = sci_magnitudes();
+    let mut objs: Vec<f64> = vec![0.0, -0.0, f64::INFINITY];
+    objs.extend(mags.iter().copied());
+    for m in [lat(-1074, 0), lat(-1022, 0), lat(-537, 128), lat(0, 0), lat(0, 128), lat(512, 0), lat(1023, 0), lat(1023, 255)] {
+        objs.push(-m);
+    }
+    let mut scalars: Vec<f64> = vec![0.0, f64::NAN, f64::INFINITY, f64::NEG_INFINITY];
+    for &m in &mags {
+        scalars.push(m);
+        scalars.push(-m);
+    }
+    let mut run = first_run;
+    for k in 0..objs.len() {
+        let mut r = Run::new(run, Mode::Sci);
+        for &y in &objs {
+            do_try_from(&mut r, y);
+        }
+        let base: Vec<SingleObjective> = r.pool.clone();
+        let x = base[k];
+        do_arith(&mut r, "neg", x, None, 0.0);
+        for &y in &base {
+            do_arith(&mut r, "add", x, Some(y), 0.0);
+            do_arith(&mut r, "sub", x, Some(y), 0.0);
+        }
+        for &s in &scalars {
+            do_arith(&mut r, "mul", x, None, s);
+            do_arith(&mut r, "div", x, None, s);
+        }
+        r.flush(out);
+        run += 1;
+    }
+    run
+}
+
+fn random_lattice(rng: &mut ChaCha8Rng) -> f64 {
+    let e: i64 = match rng.gen_range(0..10) {
+        0 => rng.gen_range(-1074..=-1060),
+        1 => rng.gen_range(-1030..=-1015),
+        2 => rng.gen_range(-545..=-530),
+        3 | 4 => rng.gen_range(-4..=4),
+        5 => rng.gen_range(505..=515),
+        6 => rng.gen_range(530..=540),
+        7 | 8 => rng.gen_range(1015..=1023),
+        _ => rng.gen_range(-1074..=1023),
+    };
+    let mut f: i64 = match rng.gen_range(0..8) {
+        0 | 1 | 2 => 0,
+        3 => 128,
+        4 => 255,
+        5 => 1,
+        _ => rng.gen_range(0..256),
+    };
+    // the lowest set bit of a subnormal must not lie below 2^-1074
+    let room = e + 1074;
+    if room < LAT_P as i64 {
+        f &= !((1i64 << (LAT_P as i64 - room)) - 1);
+    }
+    let x = lat(e, f);
+    if rng.gen_bool(0.3) {
+        -x
+    } else {
+        x
+    }
+}
+
+/// Seeded run: random lattice values are constructed, then arithmetic is chained (on-lattice
+/// results join the operand pool, so quotients are multiplied back, sums subtracted again, ...),
+/// and the pool is compared in all pairs, sorted, and its minimum / maximum taken.
+fn sci_random_run(r: &mut Run, rng: &mut ChaCha8Rng, size: usize) {
+    for _ in 0..size {
+        let x = if rng.gen_bool(0.5) { random_lattice(rng) } else { *sci_magnitudes().choose(rng).unwrap() };
+        do_try_from(r, x);
+    }
+    do_try_from(r, 0.0);
+    do_const(r, "infinity");
+    for _ in 0..(6 * size) {
+        let x = *r.pool.choose(rng).unwrap();
+        let y = *r.pool.choose(rng).unwrap();
+        let s = match rng.gen_range(0..20) {
+            0 => *[f64::NAN, f64::INFINITY, f64::NEG_INFINITY, 0.0].choose(rng).unwrap(),
+            1..=6 => *sci_magnitudes().choose(rng).unwrap() * if rng.gen_bool(0.3) { -1.0 } else { 1.0 },
+            7..=9 => y.value(), // an objective value as the scalar: x / x, x * y
+            _ => random_lattice(rng),
+        };
+        let s = if s == 0.0 { 0.0 } else { s }; // no -0.0 scalar (see above)
+        let op = *["neg", "add", "sub", "mul", "div", "mul", "div"].choose(rng).unwrap();
+        do_arith(r, op, x, Some(y), s);
+    }
+    if r.pool.len() > 2 * size + 4 {
+        let mut extra: Vec<SingleObjective> = r.pool.split_off(size);
+        extra.shuffle(rng);
+        extra.truncate(size + 4);
+        r.pool.extend(extra);
+    }
+    let pool: Vec<SingleObjective> = r.pool.clone();
+    for &x in &pool {
+        for &y in &pool {
+            do_cmp(r, "cmp", x, y);
+            do_cmp(r, CMP_FORMS.choose(rng).unwrap(), x, y);
+        }
+    }
+    let mut all = pool.clone();
+    all.shuffle(rng);
+    for op in ["sort", "list_min", "list_max"] {
+        do_list(r, op, &all);
+    }
+    do_dedup(r, "sorted", &all);
+}
+
 pub fn main(args: &Args) -> usize {
     let mut out = Out::create(&args.str("out"));
     match args.mode.as_str() {
         "replay" => {
+            // `--fmt sci`: the scenarios come from the model in mode "sci" (lattice codes)
+            let fmt = if args.get("fmt") == Some("sci") { Mode::Sci } else { Mode::Exact };
             for sc in read_ndjson(&args.str("in")) {
-                let mut r = Run::new(sc["run"].as_u64().unwrap(), false);
+                let mut r = Run::new(sc["run"].as_u64().unwrap(), fmt);
                 for a in sc["acts"].as_array().unwrap() {
                     replay_act(&mut r, a);
                 }
@@ -836,12 +1095,12 @@ pub fn main(args: &Args) -> usize {
         "random" => {
             let runs = args.num("n", 8);
             let size = args.num("len", 8) as usize;
-            let mut r = Run::new(0, true);
+            let mut r = Run::new(0, Mode::Rank);
             systematic(&mut r);
             r.flush(&mut out);
             for run in 1..=runs {
                 let mut g = rng(args.seed(), run);
-                let mut r = Run::new(run, true);
+                let mut r = Run::new(run, Mode::Rank);
                 random_run(&mut r, &mut g, size);
                 r.flush(&mut out);
             }
@@ -857,8 +1116,18 @@ pub fn main(args: &Args) -> usize {
             for (k, m) in bases.into_iter().enumerate() {
                 let run = runs + 1 + k as u64;
                 let mut g = rng(args.seed(), 2_000_000 + run);
-                let mut r = Run::new(run, true);
+                let mut r = Run::new(run, Mode::Rank);
                 neighbour_run(&mut r, &mut g, m, k % 2 == 1);
+                r.flush(&mut out);
+            }
+            // operands of extreme magnitude (mode sci): the systematic sweep, then `nsci` seeded runs
+            let first = 3_000_000;
+            let next = sci_systematic(&mut out, first);
+            for k in 0..args.num("nsci", 8) {
+                let run = next + k;
+                let mut g = rng(args.seed(), 4_000_000 + k);
+                let mut r = Run::new(run, Mode::Sci);
+                sci_random_run(&mut r, &mut g, size);
                 r.flush(&mut out);
             }
         }
